@@ -1271,3 +1271,488 @@ Proof.
   - assert (Hrest : led K (rwn_loop n (Some f) rest k) d0 postk false) by (apply IH; auto).
     destruct (Hrest F w1 o w' HF HK HL1 E) as [N2 R2]. split; [lia|exact R2].
 Qed.
+
+Lemma led_unsafe {A} K (m : M A) own post : led K m own post true -> led K m own post false.
+Proof. intros H. eapply led_conseq; [exact H|reflexivity|reflexivity|discriminate]. Qed.
+
+Lemma led_neutral0 {A} K (m : M A) : neutral m -> led K m d0 (fun _ => d0) true.
+Proof. intros H. apply led_neutral; [exact H|apply nonneg_d0]. Qed.
+
+(** neutral step then the rest, result flag that of the rest *)
+Lemma led_nbind {A B} K (m : M A) (f : A -> M B) post s :
+  neutral m -> (forall a, led K (f a) d0 post s) -> led K (bind m f) d0 post s.
+Proof.
+  intros Hm Hf. change s with (true && s). eapply led_bind0; [apply led_neutral0; exact Hm|exact Hf].
+Qed.
+
+Lemma rename_child_to_eq f old target new :
+  rename_child_to f old target new =
+  (ffr <- the_ref f ;;
+   tfr <- the_ref target ;;
+   mark_child_deleted (fr_node tfr) new ;;
+   o <- remove_with_name (fr_node ffr) old (Some (rename_fn target (fr_node tfr) (fr_file tfr) new)) ;;
+   match o with
+   | Some c => add_path_node_for (fr_node tfr) new c ;; fuel <- gets node_fuel ;; notify_name_change fuel c
+   | None => ret tt
+   end)%m.
+Proof. reflexivity. Qed.
+
+Lemma led_rename_child_to K f old target new :
+  nonneg K -> (1 <= K target)%Z -> led K (rename_child_to f old target new) d0 (fun _ => d0) false.
+Proof.
+  intros HKn HKt. rewrite rename_child_to_eq.
+  apply led_nbind; [apply neutral_the_ref|intros ffr].
+  apply led_nbind; [apply neutral_the_ref|intros tfr].
+  apply led_nbind; [apply neutral_mark_child_deleted|intros _].
+  change false with (false && false). eapply led_bind0.
+  - unfold remove_with_name. apply led_nbind; [apply neutral_the_node|intros p].
+    apply (led_rwn_loop (A := option nodeid)); [intros a; apply nonneg_d0| exact HKn | |].
+    + intros K' r Hn' Hle Hr. apply led_rename_fn; [exact Hr|specialize (Hle target); lia].
+    + intros K' Hn' Hle. apply led_unsafe. apply led_neutral0. apply neutral_rwn_tail.
+  - intros o. destruct o as [c|]; [|apply led_unsafe, led_ret].
+    apply led_unsafe. apply led_neutral0.
+    apply neutral_bind; [apply neutral_add_path_node_for|intros _].
+    apply neutral_bind; [apply neutral_gets|intros fuel; apply neutral_notify_name_change].
+Qed.
+
+Definition is_rename (m : tmsg) : bool := match m with Trename _ _ _ | Trenameat _ _ _ _ => true | _ => false end.
+
+Ltac neu :=
+  repeat first
+    [ apply neutral_ret | apply neutral_panic | apply neutral_the_ref | apply neutral_the_node | apply neutral_gets
+    | apply neutral_backend | apply neutral_fresh_handle | apply neutral_node_for | apply neutral_add_child
+    | apply neutral_name_for | apply neutral_mark_child_deleted
+    | apply neutral_bind; [|intros ?]
+    | match goal with
+      | |- neutral (match ?x with _ => _ end) => destruct x
+      | |- neutral (let '(_, _) := ?x in _) => destruct x
+      | |- neutral (if ?b then _ else _) => destruct b
+      end ].
+
+(** a fidRef is replaced by one with the same count and links, after steps that kept the fidRefs *)
+Lemma neutral_modify_after_keeps {A} r (g : fidref) (m : M A) w a w1 :
+  keeps m -> m w = (Ok a, w1) ->
+  fr_refs g = fr_refs (get_ref (w_st w) r) -> fr_parent g = fr_parent (get_ref (w_st w) r) -> fr_xof g = fr_xof (get_ref (w_st w) r) ->
+  same_ledger (w_st w1) (put_ref r g (w_st w1)).
+Proof.
+  intros Hk E E1 E2 E3. destruct (Hk _ _ _ E) as (R & _ & _).
+  apply same_put_ref; rewrite (get_ref_keeps _ _ _ R); assumption.
+Qed.
+
+Lemma bind_assoc_run {A B C} (m : M A) (n : M B) (k : M C) w :
+  (m ;; n ;; k)%m w = ((m ;; n) ;; k)%m w.
+Proof. unfold bind. destruct (m w) as [[a|] w1]; reflexivity. Qed.
+
+(** a fresh dead fidRef [nr] whose single link (parent or xattrOf) is [r] gets bound to a fid:
+    ref.IncRef() ; cs.InsertFID(fid, newRef) *)
+Lemma fresh_bind_chunk K F c f r nr w o w' :
+  nonneg F -> dle K F -> (1 <= K r)%Z -> L F (w_st w) ->
+  refsZ (w_st w) nr = 0%Z -> nr < st_next_ref (w_st w) -> nr <> r -> (forall x, links (w_st w) nr x = d1 r x) ->
+  (incref r ;; insert_fid c f nr)%m w = (o, w') ->
+  st_next_ref (w_st w) <= st_next_ref (w_st w') /\ L F (w_st w').
+Proof.
+  intros HF HK HKr HL Hz Hnb Hne Hlk E.
+  unfold bind at 1 in E. rewrite incref_run in E.
+  set (s := w_st w) in *.
+  assert (Hrlive : (1 <= refsZ s r)%Z).
+  { destruct HL as [L1 _]. specialize (L1 r). pose proof (tcount_nonneg r (st_fids s)). pose proof (rcount_nonneg r (st_refs s)). specialize (HK r). lia. }
+  pose proof (L_live_below _ _ _ HL Hrlive) as Hrb.
+  pose proof (L_incref_live _ _ _ HL Hrlive) as HL1.
+  set (s1 := set_refs_of s r (refsZ s r + 1)) in *.
+  unfold insert_fid in E. unfold bind at 1 in E. cbn [gets w_st] in E.
+  set (orig := tlookup (c, f) (st_fids s1)) in *.
+  unfold bind at 1 in E. rewrite incref_run in E. cbn [w_st w_tape w_log] in E.
+  assert (G1 : get_ref s1 nr = get_ref s nr) by (unfold s1, set_refs_of; apply get_put_ref_other; exact Hne).
+  assert (Hz1 : refsZ s1 nr = 0%Z) by (unfold refsZ; rewrite G1; exact Hz).
+  rewrite Hz1 in E. cbn [Z.add] in E.
+  assert (Hlk1 : forall x, links s1 nr x = d1 r x) by (intros x; unfold links; rewrite G1; apply Hlk).
+  assert (Hlb1 : links_below s1 nr) by (intros x Hx; rewrite Hlk1; apply d1_other; unfold s1, set_refs_of in Hx; cbn in Hx; lia).
+  assert (Hnb1 : nr < st_next_ref s1) by exact Hnb.
+  pose proof (L_incref_fresh _ s1 nr HL1 Hz1 Hnb1 Hlb1) as HL2.
+  set (s2 := set_refs_of s1 nr 1) in *.
+  unfold bind at 1 in E. cbn [modify w_st w_tape w_log] in E.
+  assert (Hnb2 : nr < st_next_ref s2) by exact Hnb.
+  pose proof (L_tset _ s2 (c, f) nr HL2 Hnb2) as HL3.
+  change (st_fids s2) with (st_fids s1) in *. fold orig in HL3.
+  assert (HL3' : L (dadd F (dopt orig)) (put_fids (tset (c, f) nr (st_fids s1)) s2)).
+  { eapply L_ext; [|exact HL3]. intros x. unfold dsub, dadd. rewrite Hlk1. lia. }
+  destruct orig as [og|] eqn:Eo.
+  - assert (Hog : og < st_next_ref s).
+    { eapply (L_claimed_below F s); eauto. unfold orig in Eo. change (st_fids s1) with (st_fids s) in Eo.
+      pose proof (tcount_tlookup _ _ _ Eo). pose proof (rcount_nonneg og (st_refs s)). lia. }
+    match type of E with dec_ref_ og ?W = _ => destruct (dec_ref__core og _ W o w' HL3' Hog E) as [HL4 (_ & _ & En & _)] end.
+    split; [rewrite En; exact (N.le_refl _)|].
+    eapply L_ext; [|exact HL4]. intros x; unfold dsub, dadd, dopt; lia.
+  - inversion E; subst; cbn [w_st]. split; [exact (N.le_refl _)|].
+    eapply L_ext; [|exact HL3']. intros x; unfold dadd, dopt, d0; lia.
+Qed.
+
+Lemma led_body K c m r t :
+  nonneg K -> (1 <= K r)%Z -> (1 <= K t)%Z -> led K (body c m r t) d0 (fun _ => d0) (negb (is_rename m)).
+Proof.
+  intros HKn HKr HKt F w o w' HF HK HL E.
+  unfold body in E. unfold bind at 1 in E. cbn [the_ref gets] in E. unfold bind at 1 in E. cbn [the_ref gets] in E.
+  set (fr := get_ref (w_st w) r) in *. set (tfr := get_ref (w_st w) t) in *.
+  assert (HL0 : L F (w_st w)) by (eapply L_ext; [|exact HL]; intros x; unfold dadd, d0; lia).
+  assert (Ld0 : forall s, L F s -> L (dadd d0 F) s) by (intros s0 H0; eapply L_ext; [|exact H0]; intros x; unfold dadd, d0; lia).
+  assert (Neu : forall (mm : M (res reply)), neutral mm -> mm w = (o, w') ->
+            st_next_ref (w_st w) <= st_next_ref (w_st w') /\
+            match o with Ok a => L (dadd d0 F) (w_st w') | Panic => true = true -> L F (w_st w') end).
+  { intros mm Hn Em. exact (led_neutral0 K mm Hn F w o w' HF HK HL Em). }
+  assert (Walk : forall (ga : bool) (names : list string) (nf : N) (mk : list N -> bval -> reply),
+            (w0 <- do_walk r names ga ;;
+             match w0 with
+             | inl e => ret (inl e)
+             | inr (q, nr, a) => with_defer (dec_ref_ nr) (insert_fid c nf nr ;; ret (inr (mk q a)))
+             end)%m w = (o, w') ->
+            st_next_ref (w_st w) <= st_next_ref (w_st w') /\
+            match o with Ok a => L (dadd d0 F) (w_st w') | Panic => true = true -> L F (w_st w') end).
+  { intros ga names nf mk Ew. unfold bind at 1 in Ew.
+    destruct (do_walk r names ga w) as [[x|] w1] eqn:E1;
+      destruct (led_do_walk K r names ga HKr F w _ _ HF HK HL E1) as [N1 R1].
+    2:{ inversion Ew; subst. split; [exact N1|exact R1]. }
+    destruct x as [e|[[q nr] a]]; [inversion Ew; subst; split; [exact N1|exact R1]|]. cbn [walk_post] in R1.
+    assert (Hwd : led K (with_defer (dec_ref_ nr) (insert_fid c nf nr ;; ret (@inr errv reply (mk q a)))%m) (dadd (d1 nr) d0) (fun _ => d0) true).
+    { apply led_with_defer; [|intros; apply nonneg_d0].
+      change true with (true && true). eapply led_bind0; [apply led_insert_fid_live; unfold dadd; rewrite d1_same; specialize (HKn nr); lia|intros u0; apply led_ret]. }
+    assert (R1' : L (dadd (dadd (d1 nr) d0) F) (w_st w1)) by (eapply L_ext; [|exact R1]; intros x; unfold dadd, d0; lia).
+    destruct (Hwd F w1 o w' HF HK R1' Ew) as [N2 R2]. split; [first [exact (N.le_refl _)|lia]|exact R2]. }
+  destruct m; cbn [is_rename negb]; try (apply Neu in E; [exact E|solve [unfold fail; neu]]).
+  - (* Twalk *) exact (Walk false names nf (fun q _ => ok p9_msgRwalk q) E).
+  - (* Twalkgetattr *) exact (Walk true names nf (fun q a => ok p9_msgRwalkgetattr (q ++ [bv_mode a])%list) E).
+  - (* Tlopen *)
+    unfold bind at 1 in E.
+    match type of E with context [backend ?cl w] => destruct (backend cl w) as [[[v e]|] w1] eqn:E1;
+      destruct (keeps_backend _ _ _ _ E1) as (R1 & T1 & N1) end.
+    2:{ inversion E; subst. split; [first [exact (N.le_refl _)|lia]|]. intros _. apply (L_keeps _ (w_st w)); auto. }
+    assert (HL1 : L (dadd d0 F) (w_st w1)) by (apply (L_keeps _ (w_st w)); auto).
+    destruct (is_err e); [inversion E; subst; split; [first [exact (N.le_refl _)|lia]|exact HL1]|].
+    unfold bind in E. cbn [modify ret] in E. inversion E; subst; cbn [w_st]. split; [cbn; lia|].
+    eapply same_ledger_L; [|exact HL1]. apply same_put_ref; rewrite (get_ref_keeps _ _ _ R1); reflexivity.
+  - (* Tlcreate *)
+    unfold bind at 1 in E.
+    match type of E with context [backend ?cl w] => destruct (backend cl w) as [[[v e]|] w1] eqn:E1;
+      destruct (keeps_backend _ _ _ _ E1) as (R1 & T1 & N1) end.
+    2:{ inversion E; subst. split; [first [exact (N.le_refl _)|lia]|]. intros _. apply (L_keeps _ (w_st w)); auto. }
+    assert (HL1 : L F (w_st w1)) by (apply (L_keeps _ (w_st w)); auto).
+    destruct (is_err e); [inversion E; subst; split; [first [exact (N.le_refl _)|lia]|apply Ld0; exact HL1]|].
+    unfold bind at 1 in E.
+    destruct (fresh_handle w1) as [[h|] w2] eqn:E2; destruct (keeps_fresh_handle _ _ _ E2) as (R2 & T2 & N2).
+    2:{ inversion E; subst. split; [first [exact (N.le_refl _)|lia]|]. intros _. apply (L_keeps _ (w_st w1)); auto. }
+    unfold bind at 1 in E.
+    destruct (node_for (fr_node fr) name w2) as [[node|] w3] eqn:E3; destruct (keeps_node_for _ _ _ _ _ E3) as (R3 & T3 & N3).
+    2:{ inversion E; subst. split; [first [exact (N.le_refl _)|lia]|]. intros _. apply (L_keeps _ (w_st w2)); auto. apply (L_keeps _ (w_st w1)); auto. }
+    assert (HL3 : L F (w_st w3)) by (apply (L_keeps _ (w_st w2)); auto; apply (L_keeps _ (w_st w1)); auto).
+    unfold bind at 1 in E. rewrite new_ref_run in E.
+    set (s3 := w_st w3) in *. set (nr := st_next_ref s3) in *.
+    set (frn := mkRef h 0 true flags p9_ModeRegular node (Some r) p9_xattrNone "" 0 0 0 None) in *.
+    fold (new_state s3 frn) in E.
+    unfold bind at 1 in E.
+    match type of E with context [add_child ?a ?b ?cc ?W] => destruct (add_child a b cc W) as [[uu|] w4] eqn:E4;
+      destruct (keeps_add_child _ _ _ _ _ _ E4) as (R4 & T4 & N4) end; cbn [w_st] in R4, T4, N4.
+    2:{ inversion E; subst. split; [rewrite N4; cbn; unfold s3 in *; lia|]. intros _. eapply (L_after_new_dead F s3 frn); eauto. }
+    assert (HL4 : L F (w_st w4)) by (eapply (L_after_new_dead F s3 frn); eauto).
+    assert (Gnr : get_ref (w_st w4) nr = frn) by (rewrite (get_ref_keeps _ _ _ R4); apply get_new_same).
+    assert (Hrb : r < nr).
+    { assert (Hrl : (1 <= refsZ s3 r)%Z).
+      { destruct HL3 as [L1 _]. specialize (L1 r). pose proof (tcount_nonneg r (st_fids s3)). pose proof (rcount_nonneg r (st_refs s3)). specialize (HK r). lia. }
+      exact (L_live_below _ _ _ HL3 Hrl). }
+    assert (Hz4 : refsZ (w_st w4) nr = 0%Z) by (unfold refsZ; rewrite Gnr; reflexivity).
+    assert (Hnb4 : nr < st_next_ref (w_st w4)) by (rewrite N4; cbn; fold nr; lia).
+    assert (Hne4 : nr <> r) by lia.
+    assert (Hlk4 : forall x, links (w_st w4) nr x = d1 r x) by (intros x; unfold links; rewrite Gnr; unfold frn; cbn; unfold dadd, d0; lia).
+    assert (Hchunk : st_next_ref (w_st w4) <= st_next_ref (w_st w') /\ L F (w_st w')).
+    { rewrite bind_assoc_run in E. unfold bind at 1 in E.
+      destruct ((incref r ;; insert_fid c f nr)%m w4) as [[u5|] w5] eqn:Eb.
+      - destruct (fresh_bind_chunk K F c f r nr w4 _ _ HF HK HKr HL4 Hz4 Hnb4 Hne4 Hlk4 Eb) as [N5 R5].
+        cbn [ret] in E. inversion E; subst. split; [exact N5|exact R5].
+      - destruct (fresh_bind_chunk K F c f r nr w4 _ _ HF HK HKr HL4 Hz4 Hnb4 Hne4 Hlk4 Eb) as [N5 R5].
+        inversion E; subst. split; [exact N5|exact R5]. }
+    destruct Hchunk as [N5 R5]. split; [rewrite N4 in N5; cbn in N5; unfold s3 in *; lia|].
+    destruct o; [apply Ld0; exact R5|intros _; exact R5].
+  - (* Trenameat *)
+    destruct (_ && _); [inversion E; subst; split; [first [exact (N.le_refl _)|lia]|exact HL]|].
+    unfold bind at 1 in E.
+    match type of E with context [backend ?cl w] => destruct (backend cl w) as [[[v e]|] w1] eqn:E1;
+      destruct (keeps_backend _ _ _ _ E1) as (R1 & T1 & N1) end.
+    2:{ inversion E; subst. split; [first [exact (N.le_refl _)|lia]|discriminate]. }
+    assert (HL1 : L (dadd d0 F) (w_st w1)) by (apply (L_keeps _ (w_st w)); auto).
+    destruct (is_err e); [inversion E; subst; split; [first [exact (N.le_refl _)|lia]|exact HL1]|].
+    unfold bind at 1 in E.
+    destruct (rename_child_to r oname t nname w1) as [[u|] w2] eqn:E2;
+      destruct (led_rename_child_to K r oname t nname HKn HKt F w1 _ _ HF HK HL1 E2) as [N2 R2].
+    + cbn [ret] in E. inversion E; subst. split; [first [exact (N.le_refl _)|lia]|exact R2].
+    + inversion E; subst. split; [first [exact (N.le_refl _)|lia]|discriminate].
+  - (* Trename *)
+    destruct (fr_parent fr) as [p|]; [|inversion E; subst; split; [first [exact (N.le_refl _)|lia]|discriminate]].
+    unfold bind at 1 in E. cbn [the_ref gets] in E. unfold bind at 1 in E. cbn [gets] in E.
+    destruct (is_deleted (w_st w) p); [inversion E; subst; split; [first [exact (N.le_refl _)|lia]|discriminate]|].
+    unfold bind at 1 in E.
+    match type of E with context [name_for ?a ?b w] => destruct (name_for a b w) as [[old|] w0] eqn:E0;
+      destruct (keeps_name_for _ _ _ _ _ E0) as (R0 & T0 & N0) end.
+    2:{ inversion E; subst. split; [first [exact (N.le_refl _)|lia]|discriminate]. }
+    assert (HL00 : L (dadd d0 F) (w_st w0)) by (apply (L_keeps _ (w_st w)); auto).
+    destruct (_ && _); [inversion E; subst; split; [first [exact (N.le_refl _)|lia]|exact HL00]|].
+    unfold bind at 1 in E.
+    match type of E with context [backend ?cl w0] => destruct (backend cl w0) as [[[v e]|] w1] eqn:E1;
+      destruct (keeps_backend _ _ _ _ E1) as (R1 & T1 & N1) end.
+    2:{ inversion E; subst. split; [first [exact (N.le_refl _)|lia]|discriminate]. }
+    assert (HL1 : L (dadd d0 F) (w_st w1)) by (apply (L_keeps _ (w_st w0)); auto).
+    destruct (is_err e); [inversion E; subst; split; [first [exact (N.le_refl _)|lia]|exact HL1]|].
+    unfold bind at 1 in E.
+    destruct (rename_child_to p old t name w1) as [[u|] w2] eqn:E2;
+      destruct (led_rename_child_to K p old t name HKn HKt F w1 _ _ HF HK HL1 E2) as [N2 R2].
+    + cbn [ret] in E. inversion E; subst. split; [first [exact (N.le_refl _)|lia]|exact R2].
+    + inversion E; subst. split; [first [exact (N.le_refl _)|lia]|discriminate].
+  - (* Twrite *)
+    destruct (fr_xop fr =? p9_xattrNone); [apply Neu in E; [exact E|neu]|].
+    unfold bind in E. cbn [modify ret] in E. inversion E; subst; cbn [w_st]. split; [cbn; lia|].
+    eapply same_ledger_L; [|exact HL]. apply same_put_ref; reflexivity.
+  - (* Txattrwalk *)
+    unfold bind at 1 in E.
+    match type of E with (let (o0, w'0) := ?X w in _) = _ => destruct (X w) as [[[len e]|] w1] eqn:E1;
+      assert (K1 : keeps X) by (destruct (negb _); (apply keeps_bind; [apply keeps_backend|intros [? ?]; apply keeps_ret]));
+      destruct (K1 _ _ _ E1) as (R1 & T1 & N1) end.
+    2:{ inversion E; subst. split; [first [exact (N.le_refl _)|lia]|]. intros _. apply (L_keeps _ (w_st w)); auto. }
+    assert (HL1 : L F (w_st w1)) by (apply (L_keeps _ (w_st w)); auto).
+    destruct (is_err e); [inversion E; subst; split; [first [exact (N.le_refl _)|lia]|apply Ld0; exact HL1]|].
+    destruct (_ <? _); [inversion E; subst; split; [first [exact (N.le_refl _)|lia]|apply Ld0; exact HL1]|].
+    unfold bind at 1 in E. rewrite new_ref_run in E.
+    set (s1 := w_st w1) in *. set (nr := st_next_ref s1) in *.
+    set (frn := mkRef (fr_file fr) 0 false 0 0 (fr_node fr) None p9_xattrWalk name len 0 len (Some r)) in *.
+    fold (new_state s1 frn) in E. cbv beta iota in E.
+    match type of E with _ ?W = _ => set (w2 := W) in * end.
+    assert (Ew2 : w_st w2 = new_state s1 frn) by reflexivity.
+    assert (HL2 : L F (w_st w2)) by (rewrite Ew2; eapply (L_after_new_dead F s1 frn); eauto; reflexivity).
+    assert (Gnr : get_ref (w_st w2) nr = frn) by (rewrite Ew2; apply get_new_same).
+    assert (Hrb : r < nr).
+    { assert (Hrl : (1 <= refsZ s1 r)%Z).
+      { destruct HL1 as [L1 _]. specialize (L1 r). pose proof (tcount_nonneg r (st_fids s1)). pose proof (rcount_nonneg r (st_refs s1)). specialize (HK r). lia. }
+      exact (L_live_below _ _ _ HL1 Hrl). }
+    assert (Hz4 : refsZ (w_st w2) nr = 0%Z) by (unfold refsZ; rewrite Gnr; reflexivity).
+    assert (Hnb4 : nr < st_next_ref (w_st w2)) by (rewrite Ew2; cbn; fold nr; lia).
+    assert (Hne4 : nr <> r) by lia.
+    assert (Hlk4 : forall x, links (w_st w2) nr x = d1 r x) by (intros x; unfold links; rewrite Gnr; unfold frn; cbn; unfold dadd, d0; lia).
+    assert (Hchunk : st_next_ref (w_st w2) <= st_next_ref (w_st w') /\ L F (w_st w')).
+    { rewrite bind_assoc_run in E. unfold bind at 1 in E.
+      destruct ((incref r ;; insert_fid c nf nr)%m w2) as [[u5|] w5] eqn:Eb.
+      - destruct (fresh_bind_chunk K F c nf r nr w2 _ _ HF HK HKr HL2 Hz4 Hnb4 Hne4 Hlk4 Eb) as [N5 R5].
+        cbn [ret] in E. inversion E; subst. split; [exact N5|exact R5].
+      - destruct (fresh_bind_chunk K F c nf r nr w2 _ _ HF HK HKr HL2 Hz4 Hnb4 Hne4 Hlk4 Eb) as [N5 R5].
+        inversion E; subst. split; [exact N5|exact R5]. }
+    destruct Hchunk as [N5 R5]. split; [rewrite Ew2 in N5; cbn in N5; unfold s1 in *; lia|].
+    destruct o; [apply Ld0; exact R5|intros _; exact R5].
+  - (* Txattrcreate *)
+    unfold bind in E. cbn [modify ret] in E. inversion E; subst; cbn [w_st]. split; [cbn; lia|].
+    eapply same_ledger_L; [|exact HL]. apply same_put_ref; reflexivity.
+Qed.
+
+Lemma led_weaken_safe {A} K (m : M A) own post (s s' : bool) : led K m own post s -> (s' = true -> s = true) -> led K m own post s'.
+Proof. intros H Hs. eapply led_conseq; [exact H|reflexivity|reflexivity|exact Hs]. Qed.
+
+Lemma led_bind_t {A B} K (m : M A) (f : A -> M B) own p1 p2 s :
+  led K m own p1 s -> (forall a, led K (f a) (p1 a) p2 true) -> led K (bind m f) own p2 s.
+Proof.
+  intros Hm Hf. eapply led_weaken_safe; [eapply led_bind0; [exact Hm|exact Hf]|]. intros H. rewrite H. reflexivity.
+Qed.
+Lemma led_tbind {A B} K (m : M A) (f : A -> M B) own p1 p2 s :
+  led K m own p1 true -> (forall a, led K (f a) (p1 a) p2 s) -> led K (bind m f) own p2 s.
+Proof.
+  intros Hm Hf. eapply led_weaken_safe; [eapply led_bind0; [exact Hm|exact Hf]|]. intros H. rewrite H. reflexivity.
+Qed.
+
+Lemma led_post K c m x : led K (post c m x) d0 (fun _ => d0) true.
+Proof.
+  unfold post. destruct m; try apply led_ret.
+  change true with (true && true). eapply led_bind0; [apply led_delete_fid|intros derr]. destruct (is_err derr); apply led_ret.
+Qed.
+
+Lemma led_inner K c m k r t :
+  nonneg K -> (1 <= K r)%Z -> (1 <= K t)%Z ->
+  led K (ms <- gets (fun s => alookup c (st_msize s)) ;;
+         p <- gets (fun s => view_of s r) ;;
+         tv <- gets (fun s => view_of s t) ;;
+         x <- match first_failing (guards_of k) m ms p tv with
+              | Some (GE e) => fail e
+              | Some GP => panic
+              | None => body c m r t
+              end ;;
+         post c m x)%m d0 (fun _ => d0) (negb (is_rename m)).
+Proof.
+  intros HKn HKr HKt.
+  apply led_nbind; [apply neutral_gets|intros ms].
+  apply led_nbind; [apply neutral_gets|intros p].
+  apply led_nbind; [apply neutral_gets|intros tv].
+  eapply led_bind_t; [|intros x; apply led_post].
+  destruct (first_failing _ _ _ _ _) as [[e|]|].
+  - eapply led_weaken_safe; [apply led_ret|reflexivity].
+  - eapply led_weaken_safe; [apply led_neutral0, neutral_panic|reflexivity].
+  - apply led_body; assumption.
+Qed.
+
+Lemma led_guarded K c m k : nonneg K -> led K (guarded c m k) d0 (fun _ => d0) (negb (is_rename m)).
+Proof.
+  intros HKn. unfold guarded, fail.
+  destruct (negb (forallb safe_nameb (names_of m))); [eapply led_weaken_safe; [apply led_ret|reflexivity]|].
+  eapply led_tbind; [apply led_lookup_fid|intros o].
+  destruct o as [r|]; [|eapply led_weaken_safe; [apply led_ret|reflexivity]].
+  cbn [dopt].
+  eapply led_conseq; [apply (led_with_defer K r _ d0 (fun _ => d0) (negb (is_rename m)))| | |auto].
+  - assert (HKn1 : nonneg (dadd K (d1 r))) by (apply nonneg_add; [exact HKn|apply nonneg_d1]).
+    assert (HK1 : (1 <= dadd K (d1 r) r)%Z) by (unfold dadd; rewrite d1_same; specialize (HKn r); lia).
+    destruct (fid2_of m) as [f2|]; [|apply led_inner; assumption].
+    eapply led_tbind; [apply led_lookup_fid|intros o2].
+    destruct o2 as [t|]; [|eapply led_weaken_safe; [apply led_ret|reflexivity]].
+    cbn [dopt].
+    eapply led_conseq; [apply (led_with_defer (dadd K (d1 r)) t _ d0 (fun _ => d0) (negb (is_rename m)))| | |auto].
+    + apply led_inner.
+      * apply nonneg_add; [exact HKn1|apply nonneg_d1].
+      * unfold dadd in *. pose proof (ind_nonneg (t =? r)). unfold d1 at 2. lia.
+      * unfold dadd. rewrite d1_same. specialize (HKn1 t). unfold dadd in HKn1. lia.
+    + intros; apply nonneg_d0.
+    + intros x; unfold dadd, d0; lia.
+    + reflexivity.
+  - intros; apply nonneg_d0.
+  - intros x; unfold dadd, d0; lia.
+  - reflexivity.
+Qed.
+
+(** replacing a fidRef by one with the same count and no links cannot break the ledger *)
+Lemma L_put_unlinked H s r g :
+  fr_refs g = refsZ s r -> fr_parent g = None -> fr_xof g = None -> L H s -> L H (put_ref r g s).
+Proof.
+  intros E1 E2 E3 [L1 L2]. split.
+  - intros x. rewrite refsZ_put_ref, rcount_put_ref. cbn [st_fids put_ref].
+    assert (C : claims g x = 0%Z) by (unfold claims; rewrite E2, E3; destruct (live g); reflexivity).
+    rewrite C. pose proof (claims_nonneg (get_ref s r) x). specialize (L1 x).
+    destruct (N.eqb_spec x r) as [->|Hne]; [rewrite E1|]; lia.
+  - intros x Hx. cbn in Hx. rewrite refsZ_put_ref. destruct (L2 x Hx) as [A B]. split; [exact A|].
+    destruct (N.eqb_spec x r) as [->|Hne]; [rewrite E1|]; assumption.
+Qed.
+
+Lemma neutral_set_root_mode root mode :
+  neutral (rfr <- the_ref root ;;
+           modify (put_ref root (mkRef (fr_file rfr) (fr_refs rfr) false 0 mode 0 None p9_xattrNone "" 0 0 0 None)))%m.
+Proof.
+  intros w o w' E. unfold bind, the_ref, gets, modify in E. cbn in E. inversion E; subst; cbn [w_st]. split; [cbn; lia|].
+  intros H HL. apply L_put_unlinked; auto.
+Qed.
+
+Lemma led_h_attach K c f afid aname : nonneg K -> led K (h_attach c f afid aname) d0 (fun _ => d0) true.
+Proof.
+  intros HKn. unfold h_attach.
+  destruct (negb (afid =? p9_noFID)); [apply led_ret|].
+  intros F w o w' HF HK HL E.
+  assert (HL0 : L F (w_st w)) by (eapply L_ext; [|exact HL]; intros x; unfold dadd, d0; lia).
+  assert (Ld0 : forall s, L F s -> L (dadd d0 F) s) by (intros s0 H0; eapply L_ext; [|exact H0]; intros x; unfold dadd, d0; lia).
+  unfold bind at 1 in E.
+  destruct (backend (call0 MAttach 0) w) as [[[v e]|] w1] eqn:E1; destruct (keeps_backend _ _ _ _ E1) as (R1 & T1 & N1).
+  2:{ inversion E; subst. split; [lia|]. intros _. apply (L_keeps _ (w_st w)); auto. }
+  assert (HL1 : L F (w_st w1)) by (apply (L_keeps _ (w_st w)); auto).
+  destruct (is_err e); [inversion E; subst; split; [lia|apply Ld0; exact HL1]|].
+  unfold bind at 1 in E.
+  destruct (fresh_handle w1) as [[h|] w2] eqn:E2; destruct (keeps_fresh_handle _ _ _ E2) as (R2 & T2 & N2).
+  2:{ inversion E; subst. split; [lia|]. intros _. apply (L_keeps _ (w_st w1)); auto. }
+  assert (HL2 : L F (w_st w2)) by (apply (L_keeps _ (w_st w1)); auto).
+  unfold bind at 1 in E. rewrite new_ref_run in E.
+  set (s2 := w_st w2) in *. set (root := st_next_ref s2) in *.
+  set (frr := mkRef h 1 false 0 0 0 None p9_xattrNone "" 0 0 0 None) in *.
+  fold (new_state s2 frr) in E. cbv beta iota in E.
+  pose proof (L_new_ref _ s2 frr HL2 (or_intror (conj eq_refl (conj eq_refl eq_refl)))) as HL3. cbn zeta in HL3. fold root in HL3. fold (new_state s2 frr) in HL3.
+  assert (HL3' : L (dadd (dadd (d1 root) d0) F) (new_state s2 frr)).
+  { eapply L_ext; [|exact HL3]. intros x. cbn beta. unfold dadd, d1, d0, frr. cbn. rewrite (N.eqb_sym root x). destruct (x =? root); unfold ind; lia. }
+  set (nameS := strip_slash aname) in *.
+  assert (HKn1 : nonneg (dadd K (d1 root))) by (apply nonneg_add; [exact HKn|apply nonneg_d1]).
+  assert (HK1 : (1 <= dadd K (d1 root) root)%Z) by (unfold dadd; rewrite d1_same; specialize (HKn root); lia).
+  match type of E with with_defer _ ?B ?W = _ =>
+    assert (Hb : led (dadd K (d1 root)) B d0 (fun _ => d0) true);
+    [|pose proof (led_with_defer K root B d0 (fun _ => d0) true Hb (fun _ => nonneg_d0)) as Hwd;
+      destruct (Hwd F W o w' HF HK HL3' E) as [N4 R4]] end.
+  2:{ split; [cbn in N4; unfold s2 in *; lia|exact R4]. }
+  apply led_nbind; [apply neutral_backend|intros [va ea]].
+  destruct (is_err ea); [apply led_ret|]. destruct (negb (bv_valid va)); [apply led_ret|].
+  match goal with |- led _ (bind (the_ref root) ?G) _ _ _ => idtac end.
+  (* the_ref root ;; modify ... ;; rest  -- regroup the first two *)
+  assert (Regroup : forall (rest : M reply) w0,
+            (rfr <- the_ref root ;; modify (put_ref root (mkRef (fr_file rfr) (fr_refs rfr) false 0 (ftype (bv_mode va)) 0 None p9_xattrNone "" 0 0 0 None)) ;; rest)%m w0 =
+            ((rfr <- the_ref root ;; modify (put_ref root (mkRef (fr_file rfr) (fr_refs rfr) false 0 (ftype (bv_mode va)) 0 None p9_xattrNone "" 0 0 0 None))) ;; rest)%m w0).
+  { intros rest w0. reflexivity. }
+  intros F' w0 o0 w0' HF' HK' HL' E'. rewrite Regroup in E'.
+  revert F' w0 o0 w0' HF' HK' HL' E'. fold (led (dadd K (d1 root)) ((rfr <- the_ref root ;; modify (put_ref root (mkRef (fr_file rfr) (fr_refs rfr) false 0 (ftype (bv_mode va)) 0 None p9_xattrNone "" 0 0 0 None))) ;;
+      (if (nameS =? "")%string
+       then insert_fid c f root ;; ret (ok p9_msgRattach [hd0 (bv_qids va)])
+       else w3 <- do_walk root (split_on slash nameS) false ;;
+            match w3 with
+            | inl e0 => ret (RErr (extract_errno e0))
+            | inr (_, nr, _) => with_defer (dec_ref_ nr) (insert_fid c f nr ;; ret (ok p9_msgRattach [hd0 (bv_qids va)]))
+            end))%m d0 (fun _ => d0) true).
+  apply led_nbind; [apply neutral_set_root_mode|intros _].
+  destruct (nameS =? "")%string.
+  - change true with (true && true). eapply led_bind0; [apply led_insert_fid_live; exact HK1|intros u0; apply led_ret].
+  - change true with (true && true). eapply led_bind0; [apply led_do_walk; exact HK1|intros w3].
+    destruct w3 as [e0|[[q nr] a]]; [apply led_ret|]. cbn [walk_post].
+    eapply led_conseq; [apply (led_with_defer (dadd K (d1 root)) nr _ d0 (fun _ => d0) true)| | |auto].
+    + change true with (true && true). eapply led_bind0; [apply led_insert_fid_live; unfold dadd; rewrite d1_same; specialize (HKn1 nr); unfold dadd in HKn1; lia|intros u0; apply led_ret].
+    + intros; apply nonneg_d0.
+    + intros x; unfold dadd, d0; lia.
+    + reflexivity.
+Qed.
+
+Lemma led_h_clunk K c f : nonneg K -> led K (h_clunk c f) d0 (fun _ => d0) true.
+Proof.
+  intros HKn. unfold h_clunk.
+  change true with (true && true). eapply led_bind0.
+  - unfold clunk_xattr. change true with (true && true). eapply led_bind0; [apply led_lookup_fid|intros o].
+    destruct o as [r|]; [|apply led_ret]. cbn [dopt].
+    eapply led_conseq; [apply (led_with_defer K r _ d0 (fun _ => d0) true)| | |auto].
+    + apply led_neutral0. neu.
+    + intros; apply nonneg_d0.
+    + intros x; unfold dadd, d0; lia.
+    + reflexivity.
+  - intros cerr. change true with (true && true). eapply led_bind0; [apply led_delete_fid|intros derr].
+    destruct (is_err derr); [apply led_ret|]. destruct cerr; apply led_ret.
+Qed.
+
+Lemma led_handler c m : led d0 (handler c m) d0 (fun _ => d0) (negb (is_rename m)).
+Proof.
+  assert (T : forall (mm : M reply), led d0 mm d0 (fun _ => d0) true -> led d0 mm d0 (fun _ => d0) (negb (is_rename m))).
+  { intros mm H. eapply led_weaken_safe; [exact H|reflexivity]. }
+  assert (G : forall k, kind_of m = Some k ->
+            led d0 (x <- guarded c m k ;; ret (match x with inl e => RErr (extract_errno e) | inr r => r end))%m d0 (fun _ => d0) (negb (is_rename m))).
+  { intros k _. eapply led_bind_t; [apply led_guarded, nonneg_d0|intros x; apply led_ret]. }
+  unfold handler.
+  destruct m; cbn [kind_of]; try (apply T; apply led_ret); try (apply (G _ eq_refl)).
+  - (* Tversion *)
+    apply T. unfold h_version. destruct (tversion_handle msize ver) as [[mm v] st].
+    apply led_nbind; [|intros _; apply led_ret].
+    destruct st as [[ms ?]|]; [apply neutral_modify; intros; apply same_put_msize|apply neutral_ret].
+  - apply T, led_h_attach, nonneg_d0.
+  - apply T, led_h_clunk, nonneg_d0.
+Qed.
+
+(** ---- the invariant at request boundaries ---- *)
+Definition Ledger (s : sstate) : Prop := L d0 s.
+
+Lemma ledger_init : Ledger init_state.
+Proof. split; intros r; cbn; unfold d0; [lia|]. intros _. split; [reflexivity|unfold refsZ, get_ref; cbn; lia]. Qed.
+
+Lemma ledger_bound_pos s k r : Ledger s -> tlookup k (st_fids s) = Some r -> (1 <= refsZ s r)%Z.
+Proof.
+  intros [L1 _] E. specialize (L1 r). pose proof (tcount_tlookup _ _ _ E). pose proof (rcount_nonneg r (st_refs s)). unfold d0 in L1. lia.
+Qed.
+
+(** one request keeps the ledger -- except when a rename was cut short by a panic (then the old
+    parent has lost a reference that the moved fidRef still claims: see the note in Properties/C04.v) *)
+Theorem ledger_step s c m tape :
+  Ledger s ->
+  (is_rename m = true -> snd (fst (fst (step s c m tape))) <> RErr linux_EFAULT) ->
+  Ledger (fst (fst (fst (step s c m tape)))).
+Proof.
+  intros HL Hr. unfold step in *.
+  destruct (handler c m (mkW s tape [])) as [o w] eqn:E.
+  assert (HL' : L (dadd d0 d0) (w_st (mkW s tape []))) by (eapply L_ext; [|exact HL]; intros x; unfold dadd, d0; lia).
+  destruct (led_handler c m d0 _ o w nonneg_d0 (dle_refl d0) HL' E) as [_ R].
+  destruct o as [r|]; cbn.
+  - eapply L_ext; [|exact R]. intros x; unfold dadd, d0; lia.
+  - destruct (is_rename m) eqn:Em; [exfalso; apply Hr; reflexivity|]. apply R. reflexivity.
+Qed.
